@@ -384,9 +384,11 @@ int main(int argc, char** argv)
             else if (n <= 3) add(15, 0, 0, inf);                      // every class at every rand() call
             else
               {
+                // quick tier: the expensive policies for n >= 5 only at the key starts, and (n=4) the combined permutations at key starts
                 for (int f = 0; f < 4; ++f)                             // one draw at a time: all (n+1)! answer sequences
-                  for (int bg = 0; bg < (th ? 2 : 1); ++bg) add(1 << f, bg, 0, inf);
-                if (n == 4 && (!th || !key_start)) add(15, 0, 1, 0);   // all permutations of all iterations combined
+                  for (int bg = 0; bg < (th ? 2 : 1); ++bg)
+                    if (th || n == 4 || key_start) add(1 << f, bg, 0, inf);
+                if (n == 4 && ((!th && key_start) || (th && !key_start))) add(15, 0, 1, 0);   // all permutations of all iterations combined
                 if (n == 4 && th && key_start) add(15, 0, 1, 1);       //   ... plus at most one RAND_MAX edge anywhere
                 if (n >= 5 && th && (n == 5 || (key_start && ss == 0)))
                   for (int f1 = 0; f1 < 4; ++f1)
